@@ -140,7 +140,13 @@ def prop_real(case, r):
     u0 = prob.dtype_u(prob.init)
     u0[:] = np.resize(_np(case['u0']), u0.shape)
     Tend = case['t0'] + case['dt'] * P * case['nblocks'] - 0.3 * case['dt']
-    uend, stats = ctrl.run(u0=u0, t0=case['t0'], Tend=Tend)
+    try:
+        uend, stats = ctrl.run(u0=u0, t0=case['t0'], Tend=Tend)
+    except ZeroDivisionError:
+        if case['residual_type'].endswith('rel'):
+            r.discard('relative residual undefined: a step start value is exactly zero')
+            return
+        raise
     restol, maxiter = case['restol'], case['maxiter']
     scale_floor = 1e-13
 
